@@ -1,4 +1,5 @@
 pub mod capture;
+pub mod corpus;
 pub mod dec;
 pub mod engine;
 pub mod gen;
